@@ -19,7 +19,7 @@ def run(tier):
     quick = tier == "quick"
     seed = ck.seed
     sets = optrun.option_sets(ck)
-    docs_ = optrun.documents(40 if quick else 200, seed + 5, ck, corpus_n=12 if quick else 10**6, tag="c16docs")
+    docs_ = optrun.documents(40 if quick else 100, seed + 5, ck, corpus_n=12 if quick else 10**6, tag="c16docs")
     cover = optrun.pairwise_cover(sets, seed, extra=6)
     records, meta = [], {}
     for di, (tid, text, d) in enumerate(docs_):
